@@ -100,7 +100,14 @@ func RaceCollect(limit int) (sigs, reports []string) {
 func RaceDelta() int { return verifsim.RaceErrors() - rlog.errs }
 
 // AttachRaces turns detector reports into violations of prop.
-func AttachRaces(res *Result, n int) {
+func AttachRaces(res *Result, n int) { attachRaces(res, n, "") }
+
+// AttachRacesAs is for workloads in which the harness itself is the mutator and
+// the reader (C12): a race between two harness accesses means the two values
+// share memory; it is reported under the signature asSig.
+func AttachRacesAs(res *Result, n int, asSig string) { attachRaces(res, n, asSig) }
+
+func attachRaces(res *Result, n int, asSig string) {
 	if n <= 0 {
 		return
 	}
@@ -110,6 +117,12 @@ func AttachRaces(res *Result, n int) {
 		return
 	}
 	for i, s := range sigs {
+		if !RaceInProtobom(s) && asSig != "" {
+			if !res.Has(asSig) {
+				res.Violations = append(res.Violations, Violation{Sig: asSig, Detail: "the race detector reports conflicting accesses by the mutating task and the reading task: the two values share memory", Report: reps[i]})
+			}
+			continue
+		}
 		if !RaceInProtobom(s) {
 			res.Harness = "race report without protobom frame (harness or dependency): " + s + "\n" + reps[i]
 			continue
